@@ -60,7 +60,7 @@ theorem rootNet_inv : NetInv rootNet [] [] [] := by
     · intro x
       show rootS.1.value Lit.trueLit = some true ∧ rootS.1.value Lit.trueLit = some true
       exact ⟨by decide, by decide⟩
-  · refine ⟨(fun e he => by cases he), ?_, (fun c hc => by cases hc), Lra.init_good⟩
+  · refine ⟨(fun e he => by cases he), ?_, (fun c hc => by cases hc), Lra.init_good, (fun x b hb => by cases hb)⟩
     intro c hc
     show c.b < rootS.1.vals.length
     have hc' : c ∈ r3.2.2.varDists := hc
@@ -82,7 +82,7 @@ theorem exFinal_run : NetRun.steps 100 ⟨rootNet, []⟩ exHist = some exFinal :
     and the theorem applies: the final network satisfies the invariant -/
 theorem exFinal_ok : NetOK exFinal ∧ exFinal.n.sat.log = [[⟨3, false⟩, ⟨2, true⟩, ⟨1, false⟩]] ∧
     exFinal.n.sat.decisionLevel = 2 ∧ exFinal.n.sat.value ⟨3, true⟩ = some false :=
-  ⟨(steps_ok exHist ⟨rootNet, []⟩ exFinal ⟨⟨[], [], rootNet_inv⟩, Or.inl (by decide)⟩ (guards_noRows exHist _ (by decide))
+  ⟨(steps_ok exHist ⟨rootNet, []⟩ exFinal ⟨⟨[], [], rootNet_inv⟩, Or.inl (by decide)⟩ (guards_noRows exHist _ (by decide) ⟨trivial, fun _ _ _ => ⟨trivial, fun _ _ _ => trivial⟩⟩)
     ⟨trivial, fun _ _ _ => ⟨trivial, fun _ _ _ => trivial⟩⟩ exFinal_run).1, by decide, by decide, by decide⟩
 
 end NetEx
